@@ -1672,6 +1672,10 @@ def transpose(surf, **kwargs):
         g.knotvector_u = kv_u_new
         g.knotvector_v = kv_v_new
 
+        # The trim curves are defined on the parametric space of the surface
+        for trim in g.trims:
+            ops.swap_trim_coordinates(trim)
+
     return geom
 
 
